@@ -145,6 +145,18 @@ def run(ctx):
         gen += inject_nulls(rnd, s)
     stmts += [("common_parser", s) for s in gen]
     stmts += [(p, s) for p in ("mysql_parser", "sqlserver_parser", "bigquery_parser") for s in TEMPLATES[::4]]
+    # comparisons with a bare NULL become missing / exists whatever X is, whichever side the NULL stands on
+    for opx, want in (("=", "missing"), ("==", "missing"), ("is", "missing"), ("<>", "exists"), ("!=", "exists"), ("is not", "exists")):
+        for sqlt in ("select c1 %s null from t", "select null %s c1 from t", "select a from t where f(c1) %s null and b", "select a from t where null %s f(c1)"):
+            sql = sqlt % opx
+            for parser in ("common_parser", "mysql_parser"):
+                for x in (None, 0, "", "X", {"null": {}}):
+                    st, t = impl.outcome(impl.ENTRY[parser], sql, null=x)
+                    ctx.count(1, ("fold", sql, parser, json.dumps(x)))
+                    txt = json.dumps(t, default=str) if st == "ok" else ""
+                    if st != "ok" or ('"%s"' % want) not in txt or '"eq"' in txt or '"neq"' in txt:
+                        ctx.violation("input", dict(call=dict(entry=parser, sql=sql, null=x), returned=short(t, 300) if st == "ok" else [st, str(t)],
+                                                    requires="the comparison with a bare NULL is folded to %s whatever null= is" % want))
     cases, meta = [], []
     for parser, sql in stmts:
         combos = [(m, ac, fm) for m in l2.MODES for ac in (None, "*") for fm in (None, {"f": "g"}, {"add": "sub", "sub": "add", "eq": "same"})]
